@@ -375,7 +375,7 @@ J.setdefault("C11", []).append(("history", _history_hook(_c11_check)))
 
 @judge_for("C11", "tok_roundtrip")
 def j_c11_tok(inp):
-    cfg, tracks = inp
+    cfg, tracks = inp[0], inp[1]
     t = ops.mk_tok(cfg)
     try:
         toks = t.tokenise([mk_rel(ms) for ms in tracks])
@@ -960,13 +960,14 @@ def valid_piece(cfg, tracks):
 
 @judge_for("C01", "tok_roundtrip")
 def j_c01(inp):
-    cfg, tracks = inp
+    cfg, tracks = inp[0], inp[1]
+    hows = inp[2] if len(inp) > 2 else ["rel"] * len(tracks)
     vp = valid_piece(cfg, tracks)
-    if vp is None:
+    if vp is None or len(hows) != len(tracks):
         return None
     t = ops.mk_tok(cfg)
     try:
-        toks = t.tokenise([mk_rel(ms) for ms in tracks])
+        toks = t.tokenise([ops.mk_track(ms, h) for ms, h in zip(tracks, hows)])
     except Exception as e:
         return [f"tokenise rejected a valid piece: {type(e).__name__} {e}"]
     try:
@@ -1038,7 +1039,7 @@ def j_c02_vocab(cfg):
 
 @judge_for("C02", "tok_roundtrip")
 def j_c02_closed(inp):
-    cfg, tracks = inp
+    cfg, tracks = inp[0], inp[1]
     if cfg[5] > 127:
         return None
     t = ops.mk_tok(cfg)
@@ -1118,7 +1119,7 @@ def j_c19(inp):
 
 @judge_for("C19", "tok_roundtrip")
 def j_c19_tok(inp):
-    cfg, tracks = inp
+    cfg, tracks = inp[0], inp[1]
     if valid_piece(cfg, tracks) is None:
         return None
     t = ops.mk_tok(cfg)
